@@ -313,7 +313,10 @@ func histGen(prop string, stores []string) func(t *rapid.T) histCase {
 				{Kind: "case", Name: "cb", Children: []*dm.Node{{Kind: "list", Name: "cb-list", Keys: []string{"k"}, Children: []*dm.Node{{Kind: "leaf", Name: "k", Type: &dm.Type{Base: "string"}}, {Kind: "leaf", Name: "v", Type: &dm.Type{Base: "int32"}}}}}},
 				{Kind: "case", Name: "cc", Children: []*dm.Node{{Kind: "choice", Name: "chin", Children: []*dm.Node{
 					{Kind: "case", Name: "cc1", Children: []*dm.Node{{Kind: "leaf", Name: "cc1-leaf", Type: &dm.Type{Base: "int32"}}}},
-					{Kind: "case", Name: "cc2", Children: []*dm.Node{{Kind: "leaf", Name: "cc2-leaf", Type: &dm.Type{Base: "boolean"}}}}}}}},
+					{Kind: "case", Name: "cc2", Children: []*dm.Node{{Kind: "leaf", Name: "cc2-leaf", Type: &dm.Type{Base: "boolean"}}}},
+					{Kind: "case", Name: "cc3", Children: []*dm.Node{{Kind: "choice", Name: "chdeep", Children: []*dm.Node{
+						{Kind: "case", Name: "d1", Children: []*dm.Node{{Kind: "leaf", Name: "d1-leaf", Type: &dm.Type{Base: "string"}}}},
+						{Kind: "case", Name: "d2", Children: []*dm.Node{{Kind: "container", Name: "d2-cont", Children: []*dm.Node{{Kind: "leaf", Name: "y", Type: &dm.Type{Base: "int32"}}}}}}}}}}}}}},
 			}}
 			m.Top = append(m.Top, g)
 			m = &dm.Module{Name: m.Name, Identities: m.Identities, Top: m.Top}
